@@ -27,7 +27,8 @@ def q_lit(v):
 
 
 class Unit:
-    def __init__(self, path, cls, method, coq_name, params, ret, mapped=None, siblings=None, objects=None, poppable=()):
+    def __init__(self, path, cls, method, coq_name, params, ret, mapped=None, siblings=None, objects=None, poppable=(),
+                 effects=None, tail=None):
         self.path, self.cls, self.method, self.coq_name = path, cls, method, coq_name
         self.params = params            # python name -> (coq name, type), in Coq argument order (dict keeps order)
         self.ret = ret                  # Q | Z | OQ
@@ -35,6 +36,8 @@ class Unit:
         self.siblings = siblings or {}  # method name -> (coq function, [python arg names], result type, [trailing Coq args])
         self.objects = objects or {}    # local name -> exact source text of the expression it must be bound to (an object, not a value)
         self.poppable = tuple(poppable) # dict-valued locals on which `X.pop(None)` may be called; mapped keys then read "text|X,Y"
+        self.effects = effects or {}    # exact source text of a statement that only has effects -> the statement standing for it
+        self.tail = tail                # a statement appended to the body (the value of falling off the end)
 
 
 def coerce(term, ty, want):
@@ -273,6 +276,23 @@ class Tr:
         if len(fns) != 1 or fns[0].decorator_list:
             raise Unsupported(f"method {u.method} not found exactly once (undecorated)")
         fn = fns[0]
+        if u.effects or u.tail:
+            # effect blocks: a statement whose source text is pinned in the unit spec is replaced by the statement that stands for
+            # it (each must occur exactly once); anything else that only has effects stays unsupported
+            found = {k: 0 for k in u.effects}
+
+            class Eff(ast.NodeTransformer):
+                def visit(self, n):
+                    if isinstance(n, ast.stmt) and not isinstance(n, ast.FunctionDef) and ast.unparse(n) in found:
+                        found[ast.unparse(n)] += 1
+                        return ast.parse(u.effects[ast.unparse(n)]).body[0]
+                    return self.generic_visit(n)
+            fn = Eff().visit(fn)
+            missing = [k.splitlines()[0] for k, c in found.items() if c != 1]
+            if missing:
+                raise Unsupported("effect block not found exactly once: " + "; ".join(missing)[:200])
+            if u.tail:
+                fn.body.append(ast.parse(u.tail).body[0])
         names = [a.arg for a in fn.args.args]
         if fn.args.vararg or fn.args.kwarg or fn.args.kwonlyargs or fn.args.defaults:
             raise Unsupported("signature of " + u.method)
@@ -327,6 +347,51 @@ def executable_unit():
                 mapped=mapped, objects=objects, poppable=(sb, bb))
 
 
+HALT_EFFECT = """for m in self.target_markets.values():
+    if m == market:
+        m._is_running = False
+        self.halting_time_started = m.time
+        self.activation_count += 1
+        if simulator.current_session is None:
+            raise AssertionError
+        simulator.current_session.with_order_execution = False
+        self.halted_market = m
+        self.halted_session = simulator.current_session"""
+RESUME_EFFECT = """for m in self.target_markets.values():
+    if m == market:
+        if simulator.current_session is None:
+            raise AssertionError
+        if m is not self.halted_market:
+            continue
+        if simulator.current_session is self.halted_session:
+            simulator.current_session.with_order_execution = True
+            m._is_running = True
+        self.halted_market = None
+        self.halted_session = None
+        self.halting_time_started = 0"""
+
+
+def halt_units():
+    """TradingHaltRule: the two decisions (C16).  What the rule does once it has decided - stop / restart the market, flip the
+    session's switch, remember market and session, count - is modelled by hand (Sim.halt_after_execution / halt_before_step); its
+    source text is pinned here, so any edit of it makes the translator fail closed.  `in_targets` stands for `market` being one of
+    the rule's target markets (the loop `for m in self.target_markets.values(): if m == market:`)."""
+    f = "pams/events/trading_halt_rule.py"
+    after = Unit(f, "TradingHaltRule", "hooked_after_execution", "halt_decision_gen",
+                 params={"simulator": ("simulator", "OBJ"), "execution_log": ("execution_log", "OBJ")}, ret="B",
+                 mapped={"market.get_market_price(0)": ("ref", "Q"), "market.get_market_price()": ("now", "Q"),
+                         "self.trigger_change_rate": ("rate", "Q"), "self.activation_count": ("count", "Z"),
+                         "market.is_running": ("running", "B"), "__in_targets": ("in_targets", "B")},
+                 objects={"market": "simulator.id2market[execution_log.market_id]"},
+                 effects={HALT_EFFECT: "return __in_targets"}, tail="return False")
+    before = Unit(f, "TradingHaltRule", "hooked_before_step_for_market", "resume_decision_gen",
+                  params={"simulator": ("simulator", "OBJ"), "market": ("market", "OBJ")}, ret="B",
+                  mapped={"market.get_time()": ("time", "Z"), "self.halting_time_started": ("started", "Z"),
+                          "self.halting_time_length": ("len", "Z"), "__in_targets": ("in_targets", "B")},
+                  effects={RESUME_EFFECT: "return __in_targets"}, tail="return False")
+    return [after, before]
+
+
 def translate_all(repo, groups=("C15", "C19", "C03")):
     """groups: which units to emit - C15 (price limit), C19 (tick conversions), C03 (remain_executable_orders)"""
     out = ["(* GENERATED by harness/py2coq_arith.py - do not edit *)",
@@ -346,6 +411,8 @@ def translate_all(repo, groups=("C15", "C19", "C03")):
         todo += [lo, up, lvl, cp]
     if "C03" in groups:
         todo.append(executable_unit())
+    if "C16" in groups:
+        todo += halt_units()
     for u in todo:
         out.append(f"(* {u.path}: {u.cls}.{u.method} *)")
         out.append(Tr(u).translate(repo))
